@@ -96,18 +96,24 @@ pub fn gen_case(rng: &mut Rng, id: usize) -> Vec<String> {
     let mut lines = vec![format!("case framesocket fs{id}")];
     let inf = 1usize << 40;
     let mut stream: Vec<u8> = Vec::new();
+    let mut garbage = false;
     for _ in 0..rng.range(1, 5) {
         let n = *rng.pick(&[0usize, 1, 2, 5, 125, 126, 127, 300, 70000]);
         let mask = if rng.chance(1, 2) { Some(rng.mask()) } else { None };
         let opc = *rng.pick(&[0u8, 1, 2, 8, 9, 10, 2, 1]);
         let p = payload(rng, n);
-        let form = if rng.chance(1, 8) { LenForm::Force16 } else { LenForm::Minimal };
+        let form = if rng.chance(1, 8) {
+            // a forced 16-bit length truncates long payloads: what follows is then arbitrary bytes
+            garbage = garbage || n > 65535;
+            LenForm::Force16
+        } else {
+            LenForm::Minimal
+        };
         stream.extend(enc_frame(rng.chance(3, 4), if rng.chance(1, 10) { rng.below(8) as u8 } else { 0 }, opc, mask, &p, form));
     }
     // `read(None)` means "no limit": a header that announces 2^63 bytes is then the caller's
     // problem (the properties quantify over finite limits), so unlimited reads are only issued on
     // streams without garbage
-    let mut garbage = false;
     match rng.below(8) {
         0 => {
             let n = rng.below(stream.len() + 1);
